@@ -630,17 +630,24 @@ pub fn digest_runs(prop: &Prop, seed: u64, start: u64, stride: u64, n: u64) -> V
     let mut i = start;
     let t0 = Instant::now();
     while i < n && t0.elapsed() < Duration::from_secs(90) {
-        let case = case_for(prop, seed, i, Tier::Quick);
-        let h = crate::exec::run(&case.script);
-        if crate::exec::is_tainted() {
-            // a run hung: nothing else may be simulated in this process
-            out.push((i, 0xDEAD));
-            break;
+        // one process per run here too (the logger, statics of the decoder ...)
+        let r = in_child(|| {
+            let case = case_for(prop, seed, i, Tier::Quick);
+            let h = crate::exec::run(&case.script);
+            if crate::exec::is_tainted() { return None; }
+            let mut st = Stats::default();
+            let vs = (prop.check)(&case, &mut st);
+            let verdict = format!("{:?}|{}|{}", vs, st.oracle_evals, st.nontrivial_runs);
+            Some(crate::exec::digest(&h) ^ crate::stats::fnv(verdict.as_bytes()).rotate_left(17))
+        });
+        match r {
+            Some(Some(d)) => out.push((i, d)),
+            _ => {
+                // a run hung or its process died: do not burn time on more of them
+                out.push((i, 0xDEAD));
+                break;
+            }
         }
-        let mut st = Stats::default();
-        let vs = (prop.check)(&case, &mut st);
-        let verdict = format!("{:?}|{}|{}", vs, st.oracle_evals, st.nontrivial_runs);
-        out.push((i, crate::exec::digest(&h) ^ crate::stats::fnv(verdict.as_bytes()).rotate_left(17)));
         i += stride;
     }
     out
